@@ -293,7 +293,9 @@ def cases(tier, seed):
         for name in ("q2p2", "cubic_mixed"):
             out.append(("energy", {"ham": name, "order": order, "dt": 0.02, "steps": 8000 if tier == "quick" else 20000, "scale": 1.0}))
             for dt in (0.05, 0.1):
-                if order <= 4 or tier != "quick":
+                # orders 6, 8 at these steps leave the stable range of the composition (sub-steps reach 1.17^3 h; the energy error jumps to
+                # ~0.1 H within the first quarter and stays there): not a drift, and not what the statement is about
+                if order <= 4:
                     out.append(("energy", {"ham": name, "order": order, "dt": dt, "steps": 20000 if tier == "quick" else 40000, "scale": 1.0}))
         for name in (("q2p2", "cubic_mixed", "oscillators") if tier == "quick" else hams):
             out.append(("kernel_roundtrip", {"ham": name, "order": order, "hs": [0.01, 0.04, 0.1, 0.3], "cs": [20.0, 5.0], "off": off}))
